@@ -381,30 +381,34 @@ def _sub(e, env):
 def channel_send_paths(ctx):
     """symbolic paths of Channel.send: [(guards[(expr, pol)], writes[expr])] with locals substituted"""
     f = ctx.func("rpyc.core.channel.Channel.send")
-    out = []
 
     def block(stmts, states):
         for st in stmts:
             new = []
-            for guards, writes, env in states:
-                if isinstance(st, ast.Expr) and isinstance(st.value, ast.Constant):
-                    new.append((guards, writes, env))
+            for guards, writes, env, done in states:
+                if done:
+                    new.append((guards, writes, env, done))
+                    continue
+                if isinstance(st, ast.Expr) and isinstance(st.value, ast.Constant) or isinstance(st, ast.Pass):
+                    new.append((guards, writes, env, done))
                 elif isinstance(st, ast.Assign) and len(st.targets) == 1 and isinstance(st.targets[0], ast.Name):
                     e2 = dict(env)
                     e2[st.targets[0].id] = _sub(st.value, env)
-                    new.append((guards, writes, e2))
+                    new.append((guards, writes, e2, done))
                 elif isinstance(st, ast.If):
                     tst = _sub(st.test, env)
-                    new += block(st.body, [(guards + [(tst, True)], writes, env)])
-                    new += block(st.orelse, [(guards + [(tst, False)], writes, env)])
+                    new += block(st.body, [(guards + [(tst, True)], writes, env, False)])
+                    new += block(st.orelse, [(guards + [(tst, False)], writes, env, False)])
+                elif isinstance(st, ast.Return) and (st.value is None or isinstance(st.value, ast.Constant) and st.value.value is None):
+                    new.append((guards, writes, env, True))
                 elif isinstance(st, ast.Expr) and isinstance(st.value, ast.Call) and \
-                        A.call_name(st.value) in ("self.stream.write",) and len(st.value.args) == 1:
-                    new.append((guards, writes + [(_sub(st.value.args[0], env), st)], env))
+                        A.call_name(_sub(st.value, env)) in ("self.stream.write",) and len(st.value.args) == 1:
+                    new.append((guards, writes + [(_sub(st.value.args[0], env), st)], env, done))
                 else:
                     raise AnalysisError("Channel.send: unsupported statement `%s`" % A.norm(st)[:60])
             states = new
         return states
-    return f, block(f.node.body, [([], [], {})])
+    return f, [(g, w, e) for g, w, e, d in block(f.node.body, [([], [], {}, False)])]
 
 
 def flatten_concat(e):
@@ -536,54 +540,70 @@ def check_channel(ctx, rep, rule="R05.4"):
 
     def canon(e):
         return A.src(ast.fix_missing_locations(Canon().visit(A.clone(e))))
-    env = {}
-    results = []      # (flag condition or None, returned expr)
+    results = []      # (guards, returned expr) per path
 
-    def rblock(stmts, cond):
+    def rblock(stmts, states):
+        """states: [(guards, env)] still running; returns the states that fall off the end of the block"""
         for st in stmts:
-            if isinstance(st, ast.Expr) and isinstance(st.value, ast.Constant):
-                continue
-            if isinstance(st, ast.Assign) and len(st.targets) == 1:
-                val = _sub(st.value, env)
-                t = st.targets[0]
-                if isinstance(t, ast.Name):
-                    env[t.id] = val
-                elif isinstance(t, ast.Tuple) and all(isinstance(e, ast.Name) for e in t.elts):
-                    for i, e in enumerate(t.elts):
-                        env[e.id] = ast.Subscript(value=A.clone(val), slice=ast.Constant(value=i), ctx=ast.Load())
+            new = []
+            for guards, env in states:
+                if isinstance(st, ast.Expr) and isinstance(st.value, ast.Constant) or isinstance(st, ast.Pass):
+                    new.append((guards, env))
+                elif isinstance(st, ast.Assign) and len(st.targets) == 1:
+                    val = _sub(st.value, env)
+                    t = st.targets[0]
+                    env = dict(env)
+                    if isinstance(t, ast.Name):
+                        env[t.id] = val
+                    elif isinstance(t, ast.Tuple) and all(isinstance(e, ast.Name) for e in t.elts):
+                        for i, e in enumerate(t.elts):
+                            env[e.id] = ast.Subscript(value=A.clone(val), slice=ast.Constant(value=i), ctx=ast.Load())
+                    else:
+                        raise AnalysisError("Channel.recv: unsupported assignment")
+                    new.append((guards, env))
+                elif isinstance(st, ast.If):
+                    tst = _sub(st.test, env)
+                    pol = True
+                    while isinstance(tst, ast.UnaryOp) and isinstance(tst.op, ast.Not):
+                        tst, pol = tst.operand, not pol
+                    new += rblock(st.body, [(guards + [(tst, pol)], env)])
+                    new += rblock(st.orelse, [(guards + [(tst, not pol)], env)])
+                elif isinstance(st, ast.Return) and st.value is not None:
+                    results.append((guards, _sub(st.value, env)))
                 else:
-                    raise AnalysisError("Channel.recv: unsupported assignment")
-            elif isinstance(st, ast.If):
-                tst = _sub(st.test, env)
-                saved = dict(env)
-                r1 = rblock(st.body, (tst, True))
-                env_t = dict(env)
-                env.clear()
-                env.update(saved)
-                r2 = rblock(st.orelse, (tst, False))
-                if r1 or r2:
-                    continue
-                # merge: variables differing between branches become conditional expressions
-                for k in set(env_t) | set(env):
-                    a, b = env_t.get(k), env.get(k)
-                    if a is not None and b is not None and A.src(a) != A.src(b):
-                        env[k] = ast.IfExp(test=A.clone(tst), body=a, orelse=b)
-                    elif a is not None and b is None:
-                        env[k] = a
-            elif isinstance(st, ast.Return):
-                results.append((cond, _sub(st.value, env)))
-                return True
-            else:
-                raise AnalysisError("Channel.recv: unsupported statement `%s`" % A.norm(st)[:60])
-        return False
-    rblock(fr.node.body, None)
+                    raise AnalysisError("Channel.recv: unsupported statement `%s`" % A.norm(st)[:60])
+            states = new
+        return states
+    fell = rblock(fr.node.body, [([], {})])
     H = "self.FRAME_HEADER.unpack(self.stream.read(%d))" % hsize
     raw_forms = {"self.stream.read(%s[0] + %d)[:-%d]" % (H, fl, fl), "self.stream.read(%s[0] + %d)[:%s[0]]" % (H, fl, H)}
-    okr = len(results) == 1
-    got = canon(results[0][1]) if results else "<no return>"
+    flag = "%s[1]" % H
+    # value returned when the flag is set / clear: paths guarded by the flag select, conditional expressions are split
+    by_flag = {True: set(), False: set()}
+    okr = bool(results) and not fell
+    for guards, val in results:
+        pols = set()
+        for gexp, pol in guards:
+            if canon(gexp) == flag:
+                pols.add(pol)
+            else:
+                okr = False       # the result depends on something other than the flag
+        if len(pols) > 1:
+            continue              # infeasible path
+        vals = {True: val, False: val}
+        if isinstance(val, ast.IfExp) and canon(val.test) == flag:
+            vals = {True: val.body, False: val.orelse}
+        elif isinstance(val, ast.IfExp) and isinstance(val.test, ast.UnaryOp) and isinstance(val.test.op, ast.Not) and \
+                canon(val.test.operand) == flag:
+            vals = {True: val.orelse, False: val.body}
+        for pv in (pols or {True, False}):
+            by_flag[pv].add(canon(vals[pv]))
+    got = "flag set: %s; flag clear: %s" % (sorted(by_flag[True]) or "<no return>", sorted(by_flag[False]) or "<no return>")
     if okr:
-        want = {"zlib.decompress(%s) if %s[1] else %s" % (r, H, r) for r in raw_forms}
-        okr = got in want
+        okr = len(by_flag[True]) == 1 and len(by_flag[False]) == 1
+    if okr:
+        raw = list(by_flag[False])[0]
+        okr = raw in raw_forms and list(by_flag[True])[0] == "zlib.decompress(%s)" % raw
     rep.ob(rule, "Channel.recv: header, payload+flusher, strip flusher, decompress iff flag", okr,
            "reads FRAME_HEADER.size bytes, unpacks (length, flag) with the same struct, reads length+len(FLUSHER), strips the "
            "flusher from the end, decompresses iff the flag is set" if okr else
